@@ -7,19 +7,6 @@ TB_COMMON = [
     "sequential consistency: interleavings of atomic steps; recorded memory orderings are compared with the model's annotation but no weak-memory behaviour is modelled",
 ]
 
-# ---- C06 / C07 (channels): shared by both entries
-CH_TB = [
-    "the inner queues (may_queue mpsc/spsc, crossbeam SegQueue) are atomic FIFOs at this layer (C03 is its own check; SegQueue by contract)",
-    "ThreadPark is replaced by the controller's virtual token in det mode; a Blocker is the binary token of C02",
-    "the strong count of Arc<InnerQueue> is not hooked: its decrement is folded into the last hooked step of a handle's drop (exact in det mode)",
-    "rustc drops a value exactly once when its owner goes out of scope (the receiving caller, SendError, the queue's Drop)",
-]
-CH_ASSUME = [
-    "fair scheduling for the wake-up / disconnect theorems (quiescence form: nobody mid-operation => a parked receiver holds its token)",
-    "thread endpoints in det mode; the coroutine endpoints (Blocker = Park, spsc's own Park path) are in the models but not replayed yet",
-]
-CH_RULE = "det mode: 2-5 threads, seeded op lists (send / clone / drop of Senders, try_recv / recv / recv_timeout with virtual time-outs, drain or early drop of Receivers; a gated variant keeps every Sender alive until the receiver has got everything, so that a lost wake-up shows as a deadlock), seeded random schedules with stickiness; distinct = SHA-1 of the canonical trace"
-# ---- end C06 / C07 constants
 
 def _c01_life_family():
     """the `life` family needs the run-queue hooks of pending_hooks/wp-life.patch (one event per operation on
@@ -36,6 +23,20 @@ def _c01_life_family():
         return []
     return [dict(mode="live", name="life", quick=360, thorough=6000,
                  nontrivial=r"\n(timer|c:\S+|k:\S+) note - resume_enter|\nc:\S+ note - sched_|q\.steal_into 0 0 [1-9]")]
+
+# ---- C06 / C07 (channels): shared by both entries
+CH_TB = [
+    "the inner queues (may_queue mpsc/spsc, crossbeam SegQueue) are atomic FIFOs at this layer (C03 is its own check; SegQueue by contract)",
+    "ThreadPark is replaced by the controller's virtual token in det mode; a Blocker is the binary token of C02",
+    "the strong count of Arc<InnerQueue> is not hooked: its decrement is folded into the last hooked step of a handle's drop (exact in det mode)",
+    "rustc drops a value exactly once when its owner goes out of scope (the receiving caller, SendError, the queue's Drop)",
+]
+CH_ASSUME = [
+    "fair scheduling for the wake-up / disconnect theorems (quiescence form: nobody mid-operation => a parked receiver holds its token)",
+    "thread endpoints in det mode; the coroutine endpoints (Blocker = Park, spsc's own Park path) are in the models but not replayed yet",
+]
+CH_RULE = "det mode: 2-5 threads, seeded op lists (send / clone / drop of Senders, try_recv / recv / recv_timeout with virtual time-outs, drain or early drop of Receivers; a gated variant keeps every Sender alive until the receiver has got everything, so that a lost wake-up shows as a deadlock), seeded random schedules with stickiness; distinct = SHA-1 of the canonical trace"
+# ---- end C06 / C07 constants
 
 PROPS = {
     "C01": dict(
@@ -118,24 +119,6 @@ PROPS = {
         ],
         rule="det mode: 2-5 threads x 1-6 operations (sem: wait / wait_timeout / try_wait / post / get_value, init 0..3; syncflag: fire / wait / wait_timeout / is_fired), virtual time-outs fired by the controller (120 per mille), seeded random schedules with stickiness, plus detx: all schedules with <= 2 preemptions (time-out firings included) of 4 seeded scenarios per family; non-trivial = at least one waiter registered (q.push in the trace); distinct = SHA-1 of the canonical trace",
     ),
-    "C06": dict(
-        lean_props=["MayVerif.Props.C06"],
-        families=[
-            dict(mode="det", name="ch_mpsc", quick=600, thorough=12000, nontrivial=r" q\.push (.|\n)* q\.pop "),
-        ],
-        trusted_base=TB_COMMON + CH_TB,
-        assumptions=CH_ASSUME,
-        rule=CH_RULE,
-    ),
-    "C07": dict(
-        lean_props=["MayVerif.Props.C07"],
-        families=[
-            dict(mode="det", name="ch_mpsc", quick=600, thorough=12000, nontrivial=r" (load|fetch_sub) \S+ \S+ [01] 2 |park_enter"),
-        ],
-        trusted_base=TB_COMMON + CH_TB,
-        assumptions=CH_ASSUME,
-        rule=CH_RULE,
-    ),
     "C04": dict(
         lean_props=["MayVerif.Props.C04"],
         families=[dict(mode="det", name="mq_spmc", quick=480, thorough=12000,
@@ -204,7 +187,7 @@ PROPS = {
         families=[
             dict(mode="live", name="cancel", quick=360, thorough=6000, nontrivial=r" fetch_or ", timeout=600),
             dict(mode="live", name="cancel_mutex", quick=360, thorough=6000, nontrivial=r"sync\.blocking\.(unparked|release)@\S+ (load|swap) ", timeout=600),
-            # oracle only (no replay model attached): cancel during the re-lock inside Condvar::wait (b_ignore path, F11)
+            # oracle only (no replay model attached): cancel during the re-lock inside Condvar::wait (b_ignore path, F11), incl. cancel() racing the unlocker (lost wake-up F16)
             dict(mode="live", name="cancel_cvlock", quick=120, thorough=2000, nontrivial=r" q\.push ", timeout=600),
         ],
         trusted_base=TB_COMMON + [
@@ -215,7 +198,7 @@ PROPS = {
         ],
         assumptions=[
             "cancel_stops_target is proved only for kernel tails that do not overlap (ov = false); the code allows the overlap and the theorem is FALSE there: witness cancel_lost_stale_set_co, reproduced on the real code (F14, pending_fixes/README-C09.md); the fixed order is proved in full (cancel_stops_target_fixed) and is the replay variant once src/sleep.rs registers before it publishes (header fixed=1)",
-            "quiescence form of the no-hang claim (fair scheduling assumed); cancellation disabled (disable_cancel in effect) defers the stop by design",
+            "quiescence form of the no-hang claim (fair scheduling assumed); cancellation disabled (disable_cancel in effect) defers the stop by design: with the set_co of F16 (header setco=1, model variant dz) a wait entered while disabled is not registered and provably never interrupted (disabled_wait_not_interrupted, for slots no earlier wait used - every in-tree disabled wait uses a fresh blocker; witness disabled_wait_on_reused_slot_interrupted for the residual case)",
             "semaphore / condvar / rwlock / channel / join / select / socket instances of the hand-over clause belong to C10/C11/C12/C06/C01/C16/C18",
             "sequential consistency",
         ],
@@ -228,6 +211,10 @@ PROPS = {
         families=[
             dict(mode="det", name="time_dur", quick=300, thorough=6000, nontrivial=r" dur\.take "),
             dict(mode="det", name="timeout_list", quick=500, thorough=8000, nontrivial=r" tl\.fire "),
+            # the real TimerThread::run (virtual park / unpark / clock) against add_timer / del_timer
+            dict(mode="det", name="timer_thread", quick=800, thorough=12000, nontrivial=r" opt\.take 0 0 [1-9]", timeout=300),
+            # systematic: every schedule with <= 2 preemptions (time-out firings included) of a few small seeded scenarios
+            dict(mode="detx", name="timer_thread", quick=3, thorough=24, nontrivial=r" opt\.take 0 0 [1-9]", timeout=600),
         ],
         trusted_base=TB_COMMON + [
             "std::time::Duration (as_nanos, from_millis, from_nanos), u128::div_ceil, Instant arithmetic: modelled by their documented meaning on total nanoseconds",
@@ -239,42 +226,63 @@ PROPS = {
         ],
         rule="time_dur: one actor runs the real AtomicDuration::{new,store,take,get} and TimeOutList::add_timer+schedule_timer (virtual clock) over a stratified sample of the Duration range from the scenario seed (0, 1 ns, < 1 ms, k ms +- 1 ns, seconds, hours, 2^63/2^64 ns, usize::MAX ms, Duration::MAX); every output is recomputed by the Lean model; non-trivial = at least one store/take round trip; distinct = SHA-1 of the canonical trace",
     ),
+    "C06": dict(
+        lean_props=["MayVerif.Props.C06"],
+        families=[
+            dict(mode="det", name="ch_mpsc", quick=600, thorough=12000, nontrivial=r" q\.push (.|\n)* q\.pop "),
+            dict(mode="det", name="ch_mpmc", quick=600, thorough=12000, nontrivial=r" q\.push (.|\n)* q\.pop "),
+            dict(mode="det", name="ch_spsc", quick=400, thorough=8000, nontrivial=r" q\.push (.|\n)* q\.pop "),
+        ],
+        trusted_base=TB_COMMON + CH_TB,
+        assumptions=CH_ASSUME,
+        rule=CH_RULE,
+    ),
+    "C07": dict(
+        lean_props=["MayVerif.Props.C07"],
+        families=[
+            dict(mode="det", name="ch_mpmc_f4", quick=60, thorough=400, nontrivial=r" (load|fetch_sub) \S+ \S+ [01] 2 |park_enter"),
+            dict(mode="det", name="ch_mpsc", quick=600, thorough=12000, nontrivial=r" (load|fetch_sub) \S+ \S+ [01] 2 |park_enter"),
+            dict(mode="det", name="ch_mpmc", quick=600, thorough=12000, nontrivial=r" (load|fetch_sub) \S+ \S+ [01] 2 |park_enter"),
+            dict(mode="det", name="ch_spsc", quick=400, thorough=8000, nontrivial=r" (load|fetch_sub) \S+ \S+ [01] 2 |park_enter"),
+        ],
+        trusted_base=TB_COMMON + CH_TB,
+        assumptions=CH_ASSUME,
+        rule=CH_RULE,
+    ),
+    "C19": dict(
+        lean_props=["MayVerif.Props.C19"],
+        families=[dict(mode="det", name="mq_tl", quick=600, thorough=20000,
+                       nontrivial=r"(?s)t[1-9] a mq\.mpsc_list_v1\.head@0 swap .*t0 a mq\.mpsc_list_v1\.(tail@0 store|next@\S+ store)")],
+        trusted_base=TB_COMMON + [
+            "the non-atomic accesses of mpsc_list_v1 (tail, prev, value) are reported by an event emitted immediately before the access; in det mode nothing runs in between",
+            "node identity: the canonicaliser names a pointer by the heap object that lives at that address now (born/free notes); the dangling `prev` operand of push's tail read is therefore not compared once the model has freed that node",
+            "memory oracle: freed blocks are quarantined by the harness allocator (valloc.rs) while the family runs; a hooked access to a node after its free note / a second free is an oracle failure",
+        ],
+        assumptions=[
+            "single consumer: pop / pop_if / peek / is_empty / remove and the drop of the queue are only performed by one thread (actor 0 of the model); the queue is dropped only while nobody else is inside one of its operations (ownership)",
+            "one handle per entry (Entry::into_ptr / from_ptr are not used to duplicate handles)",
+            "address re-use by the allocator is an adversarial choice of the model only where a pointer is compared without being dereferenced (push's `tail == prev`)",
+        ],
+        rule="det mode: consumer t0 (4-9 pop/pop_if/peek/is_empty/remove/drop/is_link/push operations, in 40% of the scenarios followed by the drop of the queue and 1-4 operations on surviving handles) against 1-3 producers x 1-3 pushes; race=1 scenarios (20%) also inspect/drop handles on the producer threads while the consumer runs (the Park::remove_timeout_handle pattern); seeded random schedules with stickiness; non-trivial = a producer's swap is followed by a consumer pop (tail store) or unlink (next store by t0); distinct = SHA-1 of the canonical trace",
+    ),
+    "C02": dict(
+        lean_props=["MayVerif.Props.C02"],
+        families=[
+            dict(mode="live", name="park", quick=300, thorough=4000, nontrivial=r" park\.wait_co@\S+ opt\.take 0 0 [0-9]", timeout=600),
+            dict(mode="live", name="blocker", quick=240, thorough=3000, nontrivial=r"(opt\.take 0 0 [0-9]|ret - blk\.park 1 )", timeout=600),
+            dict(mode="det", name="blocker_thr", quick=600, thorough=10000, nontrivial=r"park_return 0 0 1 "),
+        ],
+        trusted_base=TB_COMMON + [
+            "live mode: the trace is a linearization of the hooked operations (one global log lock); operations that are not hooked in this layer (schedule, the timer list incl. add_timer/del_timer, get_co_para, the AtomicPtr timeout_handle) are silent model steps placed lazily by the replay",
+            "ThreadPark (parking_lot mutex + condvar) is modelled by contract: nothing inside it is hooked in live mode and det mode replaces it by the controller's virtual token; the replay checks the API-boundary history of thread-context blockers against the token model",
+            "generator (context switch, the `para` slot), the scheduler queues (a scheduled coroutine is resumed once, later) and the timer thread (an armed entry may fire at any time; never-early is C08) are modelled by contract",
+            "cancellation is modelled as far as the Park sees it (cancel bit, cancel.co, the inner take); no scenario of C02 cancels (C09 does)",
+        ],
+        assumptions=[
+            "fair scheduling for the no-lost-wake-up theorem (quiescence form): every actor with an enabled step eventually takes it; the wait_kernel spin ends",
+            "timed parks: the time-out can be lost when the timer fires between add_timer and wait_co.store in Park::subscribe (defect F6, witness park_timeout_lost_F6; pending_fixes/README-C02.md); park_timeout_returns_partial excludes exactly that window",
+            "durations are whole milliseconds >= 1 ms (sub-millisecond time-outs are stored as 'no time-out': defect F2, owned by C08)",
+        ],
+        rule="det mode (blocker_thr): Blocker in thread context, virtual ThreadPark, 1-5 parks with virtual time-outs, 1-3 unparker threads; live mode, 1-3 workers, perturbation 0-60%: one parker (coroutine on its per-coroutine handle, or coroutine/thread on fresh Blockers), 1-4 unparkers (threads and coroutines), 1-4 rounds of park / park_timeout(1-30 ms); non-trivial = some actor took the coroutine out of the slot (or a thread-context park timed out); distinct = SHA-1 of the canonical trace",
+    ),
 }
-
-# ---- C17 / C18: network I/O (wp-io). PARTIAL BY NATURE: the kernel is an environment with a contract, not verified.
-TB_IO = TB_COMMON + [
-    "the Linux kernel (epoll edge semantics, TCP / Unix byte streams, datagram queues, eventfd, monotonic clock) is an adversarial ENVIRONMENT with the contract stated in Model/Io.lean (byte FIFO per direction; read = non-empty prefix or EAGAIN iff empty, 0 only after shutdown and drain; write = non-empty prefix or EAGAIN iff full; datagrams atomic; an edge event is queued whenever data/space/a connection ARRIVES); it is assumed, not verified; the replay inserts the unobservable kernel steps, so the contract itself is not checked against the traces",
-    "results of the non-blocking system calls, io-timer arm/disarm/fire and del_fd are reported by add-only cfg(may_verif) hook points (pending_hooks/wp-io.patch) AFTER the call: their position in the log is later than the kernel's own linearization",
-    "the scheduler (run queues, work stealing, resume of a scheduled coroutine) and the timer list (mpsc_list_v1 entries) are abstracted: `queued` flag, entry states armed/disarmed/gone (C01/C04/C08/C19 are their own checks)",
-    "one operation at a time per IoData (the API contract of &mut self / split / try_clone) is built into the model (`user`)",
-]
-IO_ASSUME = [
-    "quantitative real time is not asserted: live oracles use wall-clock LOWER bounds only, completion is the watchdog's business",
-    "fair scheduling for the quiescence-form theorems (io_no_missed_edge): quiet on the socket = no kernel tail between co.store and its re-check, no selector between fetch_or and co.take",
-    "FINDINGS on the pinned tree (reported with reproducer families and pending_fixes patches; the default families avoid them so that the check is stable): (1) every net `subscribe` uses `self`/`io_data`/`cancel` after publishing the coroutine with co.store (use-after-free: SIGSEGV / heap corruption when the resumed coroutine finishes first) - the scenarios keep sockets (boxed), coroutine handles and actor threads alive until the run has settled and use may's connect only in unperturbed scenarios; (2) io timer armed before the coroutine is published: a timer firing in between is lost, the read blocks for ever (`vh live io_timeout_race`, time-outs of 1-3 ms; default family uses >= 20 ms); (3) CancelIoImpl::cancel leaves the io timer armed: it fires into a later operation on a socket that outlives the cancelled coroutine (`vh live io_cancel_shared`)",
-]
-PROPS["C17"] = dict(
-    lean_props=["MayVerif.Props.C17"],
-    families=[dict(mode="live", name="io_stream", quick=240, thorough=2400, nontrivial=r"io\.sys\.unix\.mod\.co@\S+ opt\.store ", timeout=600)],
-    trusted_base=TB_IO,
-    assumptions=IO_ASSUME + [
-        "stream_preserved / datagram_boundaries are theorems over the kernel contract plus the library's pass-through of the last non-EAGAIN system-call result; that the library adds no buffering of its own is what the live byte-for-byte oracles check",
-    ],
-    rule="live mode, real sockets on loopback / socketpair: TcpStream and UnixStream (1-2 connections, 1-4 in the thorough tier; payload 0 .. 150 KB, .. 600 KB thorough; seeded write chunkings, read buffer sizes, SO_SNDBUF/SO_RCVBUF 2-16 KB, coroutine and plain-thread callers on both ends), UDP and Unix datagrams (1-12 / 1-40 datagrams of 0-1400 bytes); oracles: received == sent byte for byte and in order, read returns 0 only after the writer shut down and everything was delivered, write never accepts 0 or more than offered, every datagram arrives with its size and content; completion by watchdog; non-trivial = at least one operation really blocked and registered its coroutine (co opt.store in the trace); distinct = SHA-1 of the canonical trace",
-    explanation="PARTIAL BY NATURE: kernel = environment with contract; promptness measured, never asserted",
-)
-PROPS["C18"] = dict(
-    lean_props=["MayVerif.Props.C18"],
-    families=[
-        dict(mode="live", name="io_timeout", quick=96, thorough=1200, nontrivial=r" t\.(fire|disarm) ", timeout=900),
-        dict(mode="live", name="io_cancel", quick=180, thorough=2400, nontrivial=r"cancel\.state@\S+ fetch_or ", timeout=600),
-    ],
-    trusted_base=TB_IO,
-    assumptions=IO_ASSUME + [
-        "time-outs are whole milliseconds >= 1 ms (F2, owned by wp-time: AtomicDuration truncates; io_timeout_truncation_f2 states what happens otherwise); the default io_timeout family uses 20-64 ms for the expiring operations and 400-700 ms for the fed ones",
-        "TcpListener / UnixListener have no accept time-out in may's API and no loopback address black-holes a connect, so time-outs are exercised on read (TCP, Unix stream) and recv_from (UDP)",
-        "cancel is proved at step level plus the two sequential register-then-recheck runs (io_cancel_ends_with_cancel_partial); the all-interleavings form is open (see the theorem's comment); write/send do not register for io cancel in the code",
-    ],
-    rule="live mode, real sockets: io_timeout = 2-4 (2-7 thorough) operations on ONE socket (TCP, Unix stream, UDP; coroutine or thread reader): `idle` read with a 20-64 ms time-out and nothing sent (must fail with TimedOut, elapsed >= time-out, no upper bound), `fed` read with 400-700 ms and data after 0-3 ms (data, or a not-early time-out on a slow machine and the data in a later read), `after` read with NO or a 4x longer time-out right after a timed one, data after the earlier deadline (must not fail / return early); io_cancel = a coroutine blocked in TCP/Unix read (optionally with a 1.5 s time-out armed, optionally after consuming 1-2000 bytes) or in accept is cancelled after 0-3000 us by main or a thread, 0-1 (0-2) other connections transfer concurrently: join returns the Cancel error, the victim's captured state is dropped exactly once, its peer reads EOF (after the harness-deferred close), the other transfers pass the stream oracle; non-trivial = a timer fired or was disarmed / a cancel was issued; distinct = SHA-1 of the canonical trace",
-    explanation="PARTIAL BY NATURE: kernel and clock = environment; promptness measured, never asserted. Three findings on the pinned tree are reported, witnessed in Lean and reproduced by the families io_timeout_race / io_cancel_shared (not part of the default run)",
-)
